@@ -842,7 +842,7 @@ class Program:
                 out[pn] = subst_ty(parse_ty(ta), binding)
         return {k: v for k, v in out.items() if not mentions(v, gens - set(binding)) and not mentions(v, set(params))}
 
-    def reach_ctx(self, roots, visit, max_states=20000):
+    def reach_ctx(self, roots, visit, max_states=20000, stop=None):
         """Context-sensitive DFS over (function, binding).  visit(fn, binding, chain) is called once
         per state.  Closures/fn items referenced by a function are entered with the same binding."""
         self.build_callgraph()
@@ -859,6 +859,8 @@ class Program:
             if n > max_states:
                 raise AnchorError("context-sensitive reachability exceeded %d states" % max_states)
             visit(fn, binding, chain)
+            if stop is not None and stop(fn):
+                continue
             for c in fn.calls():
                 for t in self.callee_fns_ctx(c, binding):
                     nb = self.bind_for(c, t, binding)
